@@ -208,7 +208,12 @@ impl BlockScope {
         let binders = candidates.iter().try_fold(
             im::HashMap::<VarName, DefId>::new(),
             |binders, candidate| {
-                candidate.binder().binders(&resolver.bitter).into_iter().try_fold(
+                // A pattern's binders come in hash order: visit them in source
+                // order so that the duplicate reported first is always the same.
+                let mut found =
+                    candidate.binder().binders(&resolver.bitter).into_iter().collect::<Vec<_>>();
+                found.sort_by_key(|(_, definition)| *definition);
+                found.into_iter().try_fold(
                     binders,
                     |binders, (name, definition)| -> Result<_> {
                         if let Some(previous) = binders.get(&name) {
